@@ -1,1 +1,119 @@
-From DV Require Import Prelude.Base Model.Wire Model.Types.
+(* C01 — AVP value <-> wire codec is exact, RFC 6733-conformant and lossless.
+   Statements only; each proof is an `exact`/application of a lemma from Proofs/. *)
+From DV Require Import Prelude.Base Spec.Rfc6733 Model.Wire Model.Types Proofs.WireP Proofs.TypesP.
+
+(* wf_avp' : 0 <= code, vendor < 2^32, flags a byte with V set iff vendor <> 0, payload bytes,
+   total length < 2^24 -- i.e. everything Avp.new and the setters can build that fits the wire *)
+
+(* encoding IS the RFC 6733 4.1 layout: code(32) flags(8) length(24) [vendor(32)] data, zero padding to 4 *)
+Theorem C01_enc_is_rfc : forall a, wf_avp' a ->
+  enc_avp a = Ok (rfc_avp (a_code a) (a_flags a) (a_vendor a) (a_payload a)).
+Proof. exact enc_avp_is_rfc'. Qed.
+
+(* the 24-bit length counts header + unpadded data; the encoding is padded to a multiple of four *)
+Theorem C01_length : forall a bs, wf_avp' a -> enc_avp a = Ok bs ->
+  blen bs = (if a_vendor a =? 0 then 8 else 12) + blen (a_payload a) + rfc_pad (blen (a_payload a))
+  /\ blen bs mod 4 = 0.
+Proof. exact enc_avp_length'. Qed.
+
+(* V is set iff a non-zero vendor id is present, whatever flags the constructor was given *)
+Theorem C01_vbit : forall code vendor payload flags, 0 <= flags < 256 ->
+  let a := mk_avp code vendor payload flags in
+  0 <= a_flags a < 256 /\ (Z.land (a_flags a) 128 = 0 <-> vendor = 0).
+Proof. exact mk_avp_vbit. Qed.
+
+(* decoding the encoding (followed by anything) gives the AVP back and leaves the rest *)
+Theorem C01_dec_enc : forall a bs rest, wf_avp' a -> enc_avp a = Ok bs ->
+  dec_avp (bs ++ rest) = Ok (a, rest).
+Proof. exact dec_enc_avp'. Qed.
+
+(* re-encoding any decoded well-formed wire AVP reproduces the input bytes.
+   wire_ok = declared length is header + payload (>= header size), V on the wire implies a
+   non-zero vendor id, padding bytes are zero *)
+Theorem C01_enc_dec : forall bs a rest, wf_bytes bs -> dec_avp bs = Ok (a, rest) -> wire_ok bs ->
+  exists pre, enc_avp a = Ok pre /\ pre ++ rest = bs.
+Proof. exact enc_dec_avp. Qed.
+
+(* every decoded AVP is well-formed again *)
+Theorem C01_dec_wf : forall bs a rest, wf_bytes bs -> dec_avp bs = Ok (a, rest) -> wf_avp' a /\ wf_bytes rest.
+Proof. exact dec_avp_wf_partial. Qed.
+
+(* values: every value of a type's domain encodes, and decodes to itself *)
+Theorem C01_val_roundtrip : forall t v, t <> TGrouped -> in_domain t v = true ->
+  exists p, enc_val rfc_time t v = Ok p /\ dec_val rfc_time t p = Ok v /\ wf_bytes p.
+Proof. exact val_roundtrip. Qed.
+
+(* values outside the domain are rejected -- never truncated or wrapped (Time excepted: see below) *)
+Theorem C01_rejects : forall t v, t <> TGrouped -> t <> TTime ->
+  (forall b, v = VBytes b -> wf_bytes b) -> (forall f raw, v = VAddr f raw -> wf_bytes raw) ->
+  in_domain t v = false -> exists e, enc_val rfc_time t v = Err e.
+Proof. intros t v H1 H2 H3 H4 H5. exact (val_rejects t v H1 H2 H3 H4 H5). Qed.
+
+(* integers are big-endian two's complement with a range check *)
+Theorem C01_int_layout : forall n x, (0 < n)%nat -> - (256 ^ Z.of_nat n / 2) <= x < 256 ^ Z.of_nat n / 2 ->
+  pack_s n x = Ok (rfc_int n x) /\ unpack_s n (rfc_int n x) = Ok x.
+Proof. exact pack_s_roundtrip. Qed.
+
+(* UTF-8: exactly the Unicode scalar values are accepted, strict decoder, both directions *)
+Theorem C01_utf8_roundtrip : forall cps, Forall scalar cps ->
+  exists b, utf8_enc cps = Some b /\ utf8_dec b = Some cps /\ wf_bytes b.
+Proof. exact utf8_roundtrip. Qed.
+Theorem C01_utf8_rejects : forall cps, ~ Forall scalar cps -> utf8_enc cps = None.
+Proof. exact utf8_rejects. Qed.
+Theorem C01_utf8_strict : forall bs cps, utf8_dec bs = Some cps -> Forall scalar cps /\ utf8_enc cps = Some bs.
+Proof. exact utf8_dec_sound. Qed.
+
+(* Time: NTP seconds modulo 2^32 with the era rollover of 2036-02-07 06:28:16 UTC, over the whole
+   documented range 1968-01-20 03:14:08 .. 2104-02-26 09:42:24 UTC *)
+Theorem C01_time_is_rfc : forall s, time_domain s -> time_enc rfc_time s = Ok (rfc_time_data s).
+Proof. exact time_enc_is_rfc. Qed.
+Theorem C01_time_roundtrip : forall s, time_domain s ->
+  exists p, time_enc rfc_time s = Ok p /\ time_dec rfc_time p = Ok s.
+Proof. exact time_roundtrip. Qed.
+Theorem C01_time_dec_enc : forall p s, wf_bytes p -> time_dec rfc_time p = Ok s ->
+  time_domain s /\ time_enc rfc_time s = Ok p.
+Proof. exact time_dec_enc. Qed.
+
+(* KNOWN FINDING C01-time-wrap (open): outside that range the setter, as the code is, wraps
+   instead of rejecting.  Full statement `forall s, ~ time_domain s -> time_enc = Err` is FALSE
+   of the faithful model: *)
+Theorem C01_time_rejects_refuted : exists s p s',
+  ~ time_domain s /\ time_enc rfc_time s = Ok p /\ time_dec rfc_time p = Ok s' /\ s' <> s.
+Proof. exact time_wraps_refuted. Qed.
+(* what does hold: values that do not fit 32 bits at all are rejected *)
+Theorem C01_time_rejects_partial : forall s, s < -2208988800 \/ 6380945792 <= s ->
+  time_enc rfc_time s = Err AvpEncodeError.
+Proof. exact time_rejects_partial. Qed.
+
+(* Address: 2-octet family prefix then the raw address *)
+Theorem C01_addr_roundtrip : forall f raw, wf_bytes raw -> (f = 1 \/ f = 2 \/ f = 8) -> addr_ok f raw = true ->
+  addr_enc f raw = Ok (rfc_addr_data f raw) /\ addr_dec (rfc_addr_data f raw) = Ok (f, raw).
+Proof. exact addr_roundtrip. Qed.
+
+(* non-vacuity *)
+Example C01_example :
+  let a := mk_avp 461 10415 [51; 50; 50; 53; 49] 64 in
+  wf_avp' a /\ enc_avp a = Ok [0;0;1;205; 192;0;0;17; 0;0;40;175; 51;50;50;53;49;0;0;0].
+Proof.
+  split; [|vm_compute; reflexivity].
+  unfold wf_avp'. cbn. repeat split; try lia; try (repeat constructor; lia); try discriminate.
+Qed.
+
+Print Assumptions C01_enc_is_rfc.
+Print Assumptions C01_length.
+Print Assumptions C01_vbit.
+Print Assumptions C01_dec_enc.
+Print Assumptions C01_enc_dec.
+Print Assumptions C01_dec_wf.
+Print Assumptions C01_val_roundtrip.
+Print Assumptions C01_rejects.
+Print Assumptions C01_int_layout.
+Print Assumptions C01_utf8_roundtrip.
+Print Assumptions C01_utf8_rejects.
+Print Assumptions C01_utf8_strict.
+Print Assumptions C01_time_is_rfc.
+Print Assumptions C01_time_roundtrip.
+Print Assumptions C01_time_dec_enc.
+Print Assumptions C01_time_rejects_refuted.
+Print Assumptions C01_time_rejects_partial.
+Print Assumptions C01_addr_roundtrip.
